@@ -17,7 +17,7 @@ for d in sorted(os.listdir('/verif/seeded')):
     slug = d.split('-', 1)[1]
     ch = re.sub(r'\s+', ' ', m.get('change', ''))[:420]
     prev.setdefault(pid, []).append(f'[{slug}] {ch}')
-others = ' or '.join(f'/tmp/seed{i}' for i in ['', 2, 3, 4, 5, 6, 7, 8] if str(i) != str(N))
+others = ' or '.join(f'/tmp/seed{i}' for i in ['', 2, 3, 4, 5, 6, 7, 8, 9] if str(i) != str(N))
 for pid, p in props.items():
     anchors = ', '.join(p['anchors']['files'])
     earlier = '\n'.join(f'  ({i+1}) {c}' for i, c in enumerate(prev.get(pid, [])))
